@@ -199,6 +199,13 @@ func (p c12) start(c *core.Ctx) {
 	for i := 0; i < nr; i++ {
 		k := g.AddRandomNode(world.TypesRunner, 0.2)
 		g.Sc.Nodes[k].Ord = ordPool[c.Rng.Intn(len(ordPool))]
+		// a runner that needs the application itself (to read configuration, say): depending on how its name
+		// sorts it is created before the application - which then collects its runners while this one is still
+		// being created - or after it; it is a participant either way
+		if c.Rng.Intn(4) == 0 {
+			g.SetTag(k, "Any1", "wire", "github.com/go-kid/ioc/app/App")
+			c.Count("runners_depending_on_the_application", 1)
+		}
 	}
 	g.ShuffleOrders()
 	npp := c.Rng.Intn(9)
